@@ -426,6 +426,100 @@ pub fn run(report: &Report, thorough: bool) -> Evidence {
     }
     parts.insert("phonetic_graphs".into(), json!(ph_parts));
 
+    // ---------------- long-lived context: hundreds of words, ended in all four ways ----------------
+    // "behaves from then on exactly like a newly created context" must also hold after MANY ended words
+    // (memo sizes a depth-bounded search never reaches). One context composes a word list; word i is ended by
+    // terminator i mod 4 (finish / commit of the preselected candidate / ctrl-backspace / backspaces to empty);
+    // every rendering of the next word is compared with a newly created method (nothing is learned on the way).
+    if crate::par::part_enabled("long") {
+        let dict = crate::data::Dict::load(&crate::drv::real_db());
+        let mut seq: Vec<String> = dict.autocorrect.keys().filter(|k| k.chars().all(|c| c.is_ascii_lowercase()) && k.len() <= 8).cloned().collect();
+        seq.sort();
+        seq.truncate(if thorough { 1500 } else { 250 });
+        for base in ["ami", "as", "kotha", "desh", "boi", "manush", "din", "rat"] {
+            for sfx in ["gulo", "er", "ke", "ra", "te", "tei"] {
+                seq.push(format!("{}{}", base, sfx));
+            }
+        }
+        let orders: Vec<Vec<String>> = vec![seq.clone(), seq.iter().rev().cloned().collect(), {
+            let (a, b) = seq.split_at(seq.len() / 2);
+            a.iter().zip(b.iter()).flat_map(|(x, y)| [x.clone(), y.clone()]).collect()
+        }];
+        let long_cmp = AtomicU64::new(0);
+        par_for(
+            orders.len() * 2,
+            1,
+            |w| scratch_xdg(&format!("c06l-{}", w)),
+            |xdg, idx| {
+                let order = &orders[idx / 2];
+                let mut o = Opts::phonetic(&crate::drv::real_db(), xdg);
+                o.english = idx % 2 == 1;
+                crate::drv::clear_user_files(&o);
+                let mut used = Ctx::new(&o).expect("ctx");
+                used.with_pre = false;
+                let mut o2 = o.clone();
+                o2.xdg = format!("{}-fresh", xdg);
+                std::fs::create_dir_all(o2.user_dir()).expect("dir");
+                let mut fresh = Ctx::new(&o2).expect("ctx");
+                fresh.with_pre = false;
+                let files = BTreeMap::new();
+                for (i, w) in order.iter().enumerate() {
+                    let _ = histgraph::fresh(&mut fresh, &files);
+                    let mut exp = vec![];
+                    for c in w.chars() {
+                        if let Ok(r) = fresh.ch(c) {
+                            exp.push(r);
+                        }
+                    }
+                    let mut got = vec![];
+                    let mut last: Option<Rend> = None;
+                    for c in w.chars() {
+                        if let Ok(r) = used.ch(c) {
+                            last = Some(r.clone());
+                            got.push(r);
+                        }
+                    }
+                    long_cmp.fetch_add(got.len() as u64, Ordering::Relaxed);
+                    if got != exp {
+                        let k = got.iter().zip(exp.iter()).position(|(a, b)| a != b).unwrap_or(0);
+                        report.add(
+                            Violation::new("C06", "leak-observable", "leak:after-many-ended-words")
+                                .opts(&o)
+                                .events(&w.chars().take(k + 1).map(Ev::ch).collect::<Vec<_>>())
+                                .feat("words_ended_before_in_this_context", i.to_string())
+                                .detail(format!("after {} words ended in this context (finish / commit of the preselected candidate / ctrl-backspace / backspaces in turn), typing {:?}: rendering {} is {} but {} in a newly created context", i, w, k, got.get(k).map(|r| r.to_json()).unwrap_or_default(), exp.get(k).map(|r| r.to_json()).unwrap_or_default())),
+                        );
+                    }
+                    // end the word
+                    match i % 4 {
+                        0 => {
+                            let _ = used.apply(&Ev::Finish);
+                        }
+                        1 => {
+                            let sel = last.as_ref().map(|r| r.sel().min(r.len().saturating_sub(1))).unwrap_or(0);
+                            let _ = used.apply(&Ev::Commit(sel));
+                        }
+                        2 => {
+                            let _ = used.apply(&Ev::CtrlBs);
+                        }
+                        _ => {
+                            for _ in 0..w.chars().count() {
+                                let _ = used.apply(&Ev::Bs);
+                            }
+                        }
+                    }
+                    if used.ongoing() {
+                        report.add(Violation::new("C06", "ended-but-ongoing", "ended-but-ongoing:long").opts(&o).events(&w.chars().map(Ev::ch).collect::<Vec<_>>()).detail(format!("word {} ({:?}) ended with terminator {} but the session is still ongoing", i, w, i % 4)));
+                        let _ = used.apply(&Ev::Finish);
+                    }
+                }
+            },
+            |_| (),
+        );
+        transitions += long_cmp.load(Ordering::Relaxed);
+        parts.insert("long_lived_context".into(), json!({"words_per_history": seq.len(), "orders": orders.len(), "configurations": 2, "renderings_compared_with_a_new_context": long_cmp.load(Ordering::Relaxed)}));
+    }
+
     let mut ev = Evidence::new("C06", &report.tier, "model_checking");
     ev.set("states", states);
     ev.set("transitions", transitions);
